@@ -30,6 +30,24 @@ class SList:
         self.ek = ek
 
 
+class AList:
+    """list with symbolic length as array int->elem plus length (good for indexed reads/writes)"""
+    __slots__ = ("arr", "n", "ek")
+
+    def __init__(self, arr, n, ek):
+        self.arr = arr
+        self.n = n
+        self.ek = ek
+
+
+class CharList:
+    """list(str): a list of one-character strings, represented by the string itself"""
+    __slots__ = ("s",)
+
+    def __init__(self, s):
+        self.s = s
+
+
 class Map:
     """dict: z3 Array key->value plus domain Array key->Bool. Keys are PyKey terms."""
     __slots__ = ("arr", "dom", "vk")
